@@ -4,7 +4,7 @@ import CircusProofs.Core.Pres
 
 Theorems about the core model's `callHook`, `sendSignal`, `startW`, `startAfterSpawn`,
 `spawnProcess`, `stopW` (transliterations of `Watcher.call_hook`, `send_signal`, `_start`,
-`spawn_process`, `_stop`).  Hook outcomes are scripted (`true | false | raise`, cycling), the
+`spawn_process`, `_stop`, `reap_process`).  Hook outcomes are scripted (`true | false | raise`, cycling), the
 ignore-failure flag is part of `Watcher.ignoreFail`.
 -/
 namespace Circus.Core
@@ -198,7 +198,69 @@ theorem C14_after_stop_ungated (rec : Rec) (u : Nat) (close : Bool) (wt : Waiter
     ∃ s1, stopAfterKill rec u close wt s = deliver rec wt .unit (callHook u "after_stop" (setStatus u .stopped s1).2).2 :=
   ⟨_, rfl⟩
 
+/-- the state in which `reap_process` publishes the `reap` event once the wait status is known: after
+    the status check and, for a dead process, `Process.stop()` -/
+def reapReady (pid : Nat) (s : State) : State :=
+  if isDead (procStatus pid s).1 = true then (objStop pid (procStatus pid s).2).2 else (procStatus pid s).2
+
+/-- **`before_reap` and `after_reap` gate nothing**: for a listed pid, whatever `before_reap` returns
+    or raises, `reap_process` goes on to pop the entry and to run the rest with the same `status`
+    argument — the hook's value is not looked at; in that rest the process is waited for
+    (`status=None`: the `waitpid` loop `reapWait` runs first) and the `reap` event is published with
+    the decoded status (resp. the cached return code after ECHILD) *before* `after_reap` is even
+    called, and the value of `after_reap` is not looked at either (it is the last thing that runs). -/
+theorem C14_reap_hooks_ungated (u pid : Nat) (st : Option Nat) (s : State)
+    (hp : (getW u s).1.pids.contains pid = true) :
+    reapProcess u pid st s = reapTail u pid st (popPid u pid (callHook u "before_reap" s).2).2 ∧
+    (∀ x s1, reapTail u pid (some x) s1 =
+      ((), (callHook u "after_reap" (notify u "reap" (some pid) (toString (exitCodeOf x)) (reapReady pid s1)).2).2)) ∧
+    (∀ x s1, (reapWait pid spinLimit s1).1 = some (some x) →
+      reapTail u pid none s1 = reapTail u pid (some x) (reapWait pid spinLimit s1).2) ∧
+    (∀ s1, (reapWait pid spinLimit s1).1 = some none →
+      reapTail u pid none s1 =
+        ((), (callHook u "after_reap" (objStop pid (notify u "reap" (some pid)
+          (match (getO pid (reapWait pid spinLimit s1).2).1.rc with | some c => toString c | none => "None")
+          (reapWait pid spinLimit s1).2).2).2).2)) := by
+  refine ⟨?_, ?_, ?_, ?_⟩
+  · unfold reapProcess
+    simp only [bind]
+    have hc : ¬ ((!(getW u s).fst.pids.contains pid) = true) := by rw [hp]; simp
+    erw [if_neg hc]
+    rfl
+  · intro x s1
+    unfold reapTail reapReady
+    simp only [bind, pure]
+    by_cases hd : isDead (procStatus pid s1).1 = true
+    · erw [if_pos hd]; rw [if_pos hd]
+    · erw [if_neg hd]; rw [if_neg hd]
+  · intro x s1 hw
+    unfold reapTail
+    simp only [bind, pure]
+    generalize reapWait pid spinLimit s1 = rw at hw
+    obtain ⟨r, s2⟩ := rw
+    simp only at hw
+    subst hw
+    rfl
+  · intro s1 hw
+    unfold reapTail
+    simp only [bind, pure]
+    generalize reapWait pid spinLimit s1 = rw at hw
+    obtain ⟨r, s2⟩ := rw
+    simp only at hw
+    subst hw
+    rfl
+
 /-! non-vacuity -/
+/-- one worker (pid 100) that has exited; `before_reap` says no, `after_reap` raises -/
+def c14R : State :=
+  run (initState [{ name := "w", hooks := [("before_reap", { outs := ["false"], ignore := false }), ("after_reap", { outs := ["raise"], ignore := false })] }]
+    [{}] 0) [.start, .wake, .wake, .wake, .die 100 0]
+example : (getW 1 c14R).1.pids.contains 100 = true ∧ (callHook 1 "before_reap" c14R).1 = false ∧
+    (getW 1 (reapProcess 1 100 none c14R).2).1.pids = [] ∧
+    ((reapProcess 1 100 none c14R).2.log.drop c14R.log.length).map showObs =
+      ["o ev 119 hook_success - before_reap", "o reap 100 0", "o ev 119 reap 100 0", "o ev 119 hook_failure - after_reap"] := by
+  decide +kernel
+
 example : hookValue { name := "w" } "before_stop" "raise" = true ∧ hookValue { name := "w" } "before_start" "raise" = false := by
   constructor <;> decide +kernel
 example : hookOutcome { outs := ["true", "false", "raise"], ignore := false } 4 = "false" := by decide +kernel
